@@ -29,7 +29,8 @@ static Json genC03(const std::string &prop, uint64_t seed, const std::string &ti
         else if (member == 2) { double b = r.pick(std::vector<double>{4, 8}); g.params[P_buffer] = b; g.gap = 2 * b + 5; g.endMargin = b + 1; g.polygons = false; }
         else if (member == 3 || member == 4) { g.params[P_crossing] = r.pick(std::vector<double>{100, 200}); g.cancelFaults = true; if (r.chance(0.5)) g.params[P_fixedShared] = 110; }
         else if (member == 5) { g.params[P_angle] = r.pick(std::vector<double>{0, 20}); g.dirRestrict = true; }
-        else if (member == 6) addPinOps(g, false);      // end points on pins (insideOffset >= 1): the route may only pass through the shapes it is attached to
+        else if (member == 6) addPinOps(g, false);
+        else if (member == 7) { g.allowCover = true; g.polygons = false; }      // shapes dragged over free end points and on      // end points on pins (insideOffset >= 1): the route may only pass through the shapes it is attached to
         if (g.ortho) { g.params[P_nudgeDist] = r.pick(std::vector<double>{0, 4, 10}); g.options[O_nudgeAttached] = r.chance(0.3); g.options[O_unifying] = r.chance(0.7); }
         g.outputOps = r.chance(0.2);
         if (tier == "thorough") { g.maxShapes = 10; g.maxConns = 8; g.maxSteps = 10; }
@@ -85,6 +86,7 @@ static Json genC06(const std::string &prop, uint64_t seed, const std::string &ti
         tunables(r, g);
         if (r.chance(0.15)) { g.params[P_crossing] = 150; g.cancelFaults = true; g.costOracles = false; }   // cancel + recovery clause: validity only
         g.trailingEdits = true;
+        if (!g.ortho && r.chance(0.25)) { g.allowCover = true; g.polygons = false; }     // histories in which a shape passes over a free end point
         if (tier == "thorough") { g.maxShapes = 10; g.maxConns = 8; g.maxSteps = 10; g.maxEditsPerTxn = 4; }
         ss.push(genRouterSession(r, g));
     }
